@@ -24,7 +24,8 @@ MORE = [('GenSplit.v', 'slisting', 'stemplate',
         ('GenCall.v', 'flisting', None, CALL_DECL),
         ('GenTruth.v', 'tlisting', None, 'unsigned char a, b, c; unsigned short s, t, u;'),
         ('GenPtr.v', 'plisting', None, 'unsigned char a, b, c; unsigned char arr[8]; unsigned char *p, *q;'),
-        ('GenElem.v', 'elisting', None, 'short sarr[4]; unsigned char *pa[2]; unsigned char a;')]
+        ('GenElem.v', 'elisting', None, 'short sarr[4]; unsigned char *pa[2]; unsigned char a;'),
+        ('GenHw.v', 'hlisting', None, 'unsigned char a, b; unsigned char *const HW0 = 2; unsigned char *const HW1 = 3;')]
 
 
 def more_listings():
